@@ -93,6 +93,12 @@ func newOtherNode() (*otherNode, error) {
 	return o, nil
 }
 
+func (o *otherNode) contains(tid string) bool {
+	o.mu.Lock()
+	defer o.mu.Unlock()
+	return strings.Contains(string(o.bytes), tid)
+}
+
 func (o *otherNode) seen() (int, int) {
 	o.mu.Lock()
 	defer o.mu.Unlock()
@@ -157,6 +163,7 @@ func runCell(c Cell) (outcome, error) {
 		if err != nil {
 			return out, err
 		}
+		defer st.Close()
 	}
 	srv, err := miniserver.New(miniserver.Options{
 		Storage:    st,
@@ -378,9 +385,24 @@ func runCell(c Cell) (outcome, error) {
 		}
 	}
 	if other != nil {
-		time.Sleep(20 * time.Millisecond)
-		if n, _ := other.seen(); n > 0 {
-			out.remote = true
+		// the server under test forwards by dialling the other node and sending a TargetReady frame that
+		// names the tunnel id. Only that counts: a stray connection to the (reused) ephemeral port -
+		// e.g. a lingering client of an earlier cell - is not a forward.
+		deadline := time.Now().Add(20 * time.Millisecond)
+		for {
+			n, _ := other.seen()
+			if other.contains(tid) {
+				out.remote = true
+				break
+			}
+			if n > 0 && time.Now().Before(deadline.Add(200*time.Millisecond)) {
+				time.Sleep(5 * time.Millisecond)
+				continue
+			}
+			if !time.Now().Before(deadline) {
+				break
+			}
+			time.Sleep(5 * time.Millisecond)
 		}
 	}
 	// ---- entitlement, literally from the statement -----------------------------------------
